@@ -11,8 +11,8 @@
        the accuracy of numpy/libm (both are covered point-wise by the Interval-certified correspondence and by the
        oracle of harness/props/c15.py, not by a theorem).
      * theorems without suffix are full for what they state (any ring / all rationals / all argument lists).
-     * C15_wrong_shape_always_rejected_refuted: the faithful model accepts a one-element array where a scalar is
-       demanded (specify_domain.number_validator / is_numberlike_array), and the real code does too. *)
+     * no refuted theorem stands: since the repair of SpecifyDomain's wrapper (the function is called on the validated
+       values) a number-like array at a scalar position reaches the function as the number it holds. *)
 From Coq Require Import Reals ZArith QArith List String Bool.
 From Verif.Lib Require Import QRound MathFuncsBase.
 From Verif.Gen Require MathFuncs.
@@ -192,45 +192,65 @@ Proof. exact (proj2 i_squared). Qed.
 
 (* ---------------------------------------- wrong count, wrong shape, failures ---------------------------------------- *)
 (* any specification, any argument list: a wrong number of arguments is an ArgumentError *)
-Theorem C15_wrong_count_is_argument_error : forall (V : Type) e (shape_of : V -> argshape) nargs raw args,
+Theorem C15_wrong_count_is_argument_error : forall (V : Type) e (shape_of : V -> argshape) item nargs raw args,
   (forall sp, fe_spec e = Some sp -> ~ arity_ok sp (List.length args)) ->
   (fe_spec e = None -> nargs <> List.length args) ->
-  call_entry G.gen_eval_function_handlers G.gen_arity_mismatch e shape_of nargs raw args = Raise XArgumentError.
+  call_entry G.gen_eval_function_handlers G.gen_arity_mismatch e shape_of item nargs raw args = Raise XArgumentError.
 Proof.
-  exact (fun V e shape_of nargs raw args Hv Hu =>
+  exact (fun V e shape_of item nargs raw args Hv Hu =>
            match fe_spec e as o return fe_spec e = o -> _ with
-           | Some sp => fun E => call_entry_wrong_count_validated V e sp shape_of nargs raw args E (Hv sp E)
-           | None => fun E => call_entry_wrong_count_unvalidated V e shape_of nargs raw args E (Hu E)
+           | Some sp => fun E => call_entry_wrong_count_validated V e sp shape_of item nargs raw args E (Hv sp E)
+           | None => fun E => call_entry_wrong_count_unvalidated V e shape_of item nargs raw args E (Hu E)
            end eq_refl).
 Qed.
 
 (* right count, an argument whose shape the validator rejects: ArgumentShapeError *)
-Theorem C15_rejected_shape_is_argument_shape_error : forall (V : Type) e sp (shape_of : V -> argshape) nargs raw args i,
+Theorem C15_rejected_shape_is_argument_shape_error : forall (V : Type) e sp (shape_of : V -> argshape) item nargs raw args i,
   fe_spec e = Some sp -> arity_ok sp (List.length args) -> (i < List.length args)%nat ->
   shape_ok (nth i (expected_shapes sp (List.length args)) ShScalar) (nth i (map shape_of args) ANumber) = false ->
-  call_entry G.gen_eval_function_handlers G.gen_arity_mismatch e shape_of nargs raw args = Raise XArgumentShapeError.
+  call_entry G.gen_eval_function_handlers G.gen_arity_mismatch e shape_of item nargs raw args = Raise XArgumentShapeError.
 Proof. exact call_entry_wrong_shape. Qed.
 
-(* FULL statement: the decorated function is called iff count and (textbook) shapes are right.
-   Proved only when no argument is a one-element array: *)
-Theorem C15_wrong_shape_rejected_partial : forall sp args,
-  forallb (fun a => negb (one_element_array a)) args = true ->
-  (validate sp args = VCall <->
-   arity_ok sp (List.length args) /\
-   forall i, (i < List.length args)%nat ->
-             strict_shape_ok (nth i (expected_shapes sp (List.length args)) ShScalar) (nth i args ANumber) = true).
-Proof. exact validate_strict_partial. Qed.
+(* FULL: the decorated function is called iff the count is right and every argument has a shape its validator accepts
+   (a scalar position accepts a number or a number-like, i.e. one-element, array -- by design of the library) ... *)
+Theorem C15_wrong_shape_rejected : forall sp args,
+  validate sp args = VCall <->
+  arity_ok sp (List.length args) /\
+  forall i, (i < List.length args)%nat ->
+            shape_ok (nth i (expected_shapes sp (List.length args)) ShScalar) (nth i args ANumber) = true.
+Proof. exact validate_call_iff. Qed.
 
-(* ... and false in general: sin([x]) passes validation (number_validator accepts is_numberlike_array) *)
-Example C15_wrong_shape_always_rejected_refuted :
-  exists sp args, lookup G.gen_default_functions "sin" = Some (mkF (TNp "sin") (Some sp))
-    /\ validate sp args = VCall
-    /\ strict_shape_ok (nth 0 (expected_shapes sp (List.length args)) ShScalar) (nth 0 args ANumber) = false.
-Proof. exact validate_strict_refuted. Qed.
+(* ... and then it is called on the validated values: every scalar position receives a NUMBER (a number-like array is
+   replaced by the number it holds), every other position the argument itself -- never a wrong-shaped value *)
+Theorem C15_scalar_positions_receive_numbers : forall (V : Type) sp (shape_of : V -> argshape) (item : V -> V) f args d,
+  (forall a, shape_ok ShScalar (shape_of a) = true -> shape_of (item a) = ANumber) ->
+  validate sp (map shape_of args) = VCall ->
+  wrap sp shape_of item f args = f (coerce item (expected_shapes sp (List.length args)) args) /\
+  List.length (coerce item (expected_shapes sp (List.length args)) args) = List.length args /\
+  forall i, (i < List.length args)%nat ->
+    match nth i (expected_shapes sp (List.length args)) ShSquare with
+    | ShScalar => shape_of (nth i (coerce item (expected_shapes sp (List.length args)) args) d) = ANumber
+    | _ => nth i (coerce item (expected_shapes sp (List.length args)) args) d = nth i args d
+    end.
+Proof.
+  exact (fun V sp shape_of item f args d Hitem Hv =>
+           conj (wrap_calls V sp shape_of item f args Hv) (validated_arguments V sp shape_of item args d Hitem Hv)).
+Qed.
+
+(* the hypothesis on `item` holds for the values of the correspondence: obj.item() of a one-element array is a number *)
+Theorem C15_item_of_a_numberlike_array_is_a_number : forall a,
+  shape_ok ShScalar (shape_of_val a) = true -> shape_of_val (item_val a) = ANumber.
+Proof. exact item_val_number. Qed.
+
+Example C15_ex_sin_of_one_element_vector :
+  exists sp, lookup G.gen_default_functions "sin" = Some (mkF (TNp "sin") (Some sp))
+    /\ validate sp [AArray [1%nat]] = VCall
+    /\ coerce item_val (expected_shapes sp 1) [VArr false [1%nat] [(3 # 2, 0)%Q]] = [VNum false (3 # 2, 0)%Q].
+Proof. exists (mkSpec [ShScalar] None (Some "sin"%string)). repeat split. Qed.
 
 (* whatever a table function does (any Python exception), only a value or a student-facing error leaves the evaluator *)
-Theorem C15_only_student_facing_errors_escape : forall (V : Type) e (shape_of : V -> argshape) nargs raw args x,
-  call_entry G.gen_eval_function_handlers G.gen_arity_mismatch e shape_of nargs raw args = Raise x ->
+Theorem C15_only_student_facing_errors_escape : forall (V : Type) e (shape_of : V -> argshape) item nargs raw args x,
+  call_entry G.gen_eval_function_handlers G.gen_arity_mismatch e shape_of item nargs raw args = Raise x ->
   student_facing x = true.
 Proof. exact call_entry_student_facing. Qed.
 
